@@ -540,6 +540,69 @@ def _(top):
     return [top.k.input, io]
 
 
+@design("tie.same name, same scope: [Signal(name='stage') x4], anonymous comprehensions of Signals and sub-modules")
+def _(top):
+    L = _lx()
+    LiteXModule, Signal, Cat = L["LiteXModule"], L["Signal"], L["Cat"]
+
+    class Pipe(LiteXModule):
+        def __init__(self, n):
+            self.i = Signal(4); self.o = Signal(4)
+            stages = [Signal(4, name="stage") for _ in range(n)]         # n signals: same name AND same scope
+            taps = [Signal() for _ in range(3)]                          # anonymous, from a comprehension
+            self.sync += [a.eq(b) for a, b in zip(stages, [self.i] + stages)]
+            self.comb += [t.eq(st[k]) for k, (t, st) in enumerate(zip(taps, stages))]
+            self.comb += self.o.eq(stages[-1] ^ Cat(*taps))
+
+    class Cell(LiteXModule):
+        def __init__(self):
+            self.d = Signal(4); self.q = Signal(4)
+            self.sync += self.q.eq(self.d)
+
+    top.pipe = Pipe(4)
+    top.submodules += [Pipe(5) for _ in range(2)]                        # anonymous sub-modules of one class
+    cells = [Cell() for _ in range(4)]
+    top.submodules += cells
+    for a, b in zip(cells, cells[1:]):
+        top.comb += b.d.eq(a.q)
+    acc = [Signal(4, name="acc") for _ in range(6)]                      # six equal names at top level
+    top.sync += [a.eq(b + 1) for a, b in zip(acc, [cells[-1].q] + acc)]
+    top.o = Signal(4)
+    top.comb += top.o.eq(acc[-1])
+    return [top.pipe.i, top.pipe.o, cells[0].d, top.o]
+
+
+@design("tie.same name, same scope inside repeated named modules + records/memories with equal names")
+def _(top):
+    L = _lx()
+    LiteXModule, Signal, Record, Memory = L["LiteXModule"], L["Signal"], L["Record"], L["Memory"]
+
+    class Lane(LiteXModule):
+        def __init__(self):
+            self.i = Signal(8); self.o = Signal(8)
+            d = self.i
+            for _ in range(3):
+                stage = Signal(8)                    # three different signals called "stage" in one scope
+                self.sync += stage.eq(d)
+                d = stage
+            recs = [Record([("valid", 1), ("data", 8)], name="beat") for _ in range(3)]     # three records called "beat"
+            self.comb += [recs[0].data.eq(d), recs[0].valid.eq(1)]
+            for a, b in zip(recs, recs[1:]):
+                self.sync += [b.data.eq(a.data), b.valid.eq(a.valid)]
+            mems = [Memory(8, 4, name="lut") for _ in range(2)]                              # two memories called "lut"
+            self.specials += mems
+            ports = [m.get_port(write_capable=True) for m in mems]
+            self.specials += ports
+            for p_ in ports:
+                self.comb += [p_.adr.eq(recs[-1].data[:2]), p_.dat_w.eq(recs[-1].data), p_.we.eq(recs[-1].valid)]
+            self.comb += self.o.eq(ports[0].dat_r ^ ports[1].dat_r)
+
+    top.lane0 = Lane(); top.lane1 = Lane()
+    top.lanes = [Lane() for _ in range(2)]
+    top.submodules += top.lanes
+    return [l.i for l in (top.lane0, top.lane1, *top.lanes)] + [l.o for l in (top.lane0, top.lane1, *top.lanes)]
+
+
 # Adversarial user naming the property quantifies over (equal names, numeric suffixes, reserved words).  They are
 # ordinary FHDL programs; nothing is injected.  On the pinned tree the first three exhibit candidates d / e of
 # DESIGN.md section 3 at the netlist level.
@@ -657,11 +720,21 @@ def convert_observed(name):
 
 
 def child_main(argv):
+    """argv: design name, heap padding objects, dummy Signals created before the design is built, conversions to run."""
     name, pad = argv[0], int(argv[1])
+    ndummy = int(argv[2]) if len(argv) > 2 else 0
+    times = int(argv[3]) if len(argv) > 3 else 1
     junk = [object() for _ in range(pad)]      # shifts every later allocation: id()-ordered containers differ per run
     try:
+        _lx()                                  # import LiteX first: the dummies must only shift the DESIGN's DUIDs
+        from migen import Signal
+        dummies = [Signal() for _ in range(ndummy)]
         doc = convert_observed(name)
+        doc["first_duid_after_dummies"] = Signal().duid
+        # the same design built and converted again in the SAME process (its DUIDs and tracer counters moved on)
+        doc["rebuilds"] = [convert_observed(name)["verilog"] for _ in range(times - 1)]
         doc["ok"] = True
+        del dummies
     except Exception:
         import traceback
         doc = dict(design=name, ok=False, error=traceback.format_exc())
